@@ -19,6 +19,7 @@ pub struct HtmlFilterBodyAction {
     visitor: HtmlBodyVisitor,
     current_buffer: Option<Box<BufferLink>>,
     last_buffer: Vec<u8>,
+    in_error: bool,
 }
 
 lazy_static! {
@@ -51,11 +52,55 @@ impl HtmlFilterBodyAction {
             leave: None,
             last_buffer: Vec::new(),
             current_buffer: None,
+            in_error: false,
             visitor,
         }
     }
 
-    pub fn filter(&mut self, input: Vec<u8>, mut unit_trace: Option<&mut UnitTrace>) -> Result<Vec<u8>> {
+    pub fn filter(&mut self, input: Vec<u8>, unit_trace: Option<&mut UnitTrace>) -> Result<Vec<u8>> {
+        if self.in_error {
+            return Ok(input);
+        }
+
+        // bytes received but not yet returned, they must not be lost if this call fails
+        let mut passthrough = self.held();
+
+        match self.do_filter(input.clone(), unit_trace) {
+            Ok(filtered) => Ok(filtered),
+            Err(err) => {
+                log::error!("error while filtering html, filter is disabled: {}", err);
+
+                self.in_error = true;
+                self.current_buffer = None;
+                self.last_buffer = Vec::new();
+                passthrough.extend(input);
+
+                Ok(passthrough)
+            }
+        }
+    }
+
+    fn held(&self) -> Vec<u8> {
+        let mut buffers = Vec::new();
+        let mut buffer = self.current_buffer.as_ref();
+
+        while let Some(link) = buffer {
+            buffers.push(link.buffer.as_bytes());
+            buffer = link.previous.as_ref();
+        }
+
+        let mut held = Vec::new();
+
+        for buffer in buffers.iter().rev() {
+            held.extend_from_slice(buffer);
+        }
+
+        held.extend_from_slice(self.last_buffer.as_slice());
+
+        held
+    }
+
+    fn do_filter(&mut self, input: Vec<u8>, mut unit_trace: Option<&mut UnitTrace>) -> Result<Vec<u8>> {
         let mut data = self.last_buffer.clone();
         data.extend(input);
 
@@ -148,15 +193,7 @@ impl HtmlFilterBodyAction {
     }
 
     pub fn end(&mut self) -> Vec<u8> {
-        let mut to_return = self.last_buffer.clone();
-        let mut buffer = self.current_buffer.as_ref();
-
-        while buffer.is_some() {
-            to_return.extend_from_slice(buffer.unwrap().buffer.as_bytes());
-            buffer = buffer.unwrap().previous.as_ref();
-        }
-
-        to_return
+        self.held()
     }
 
     fn on_start_tag_token(
